@@ -22,19 +22,26 @@ pub fn run(o: &Opts) -> Report {
         let mut two = extra("two", "pair"); two.num_vals = Some((2, Some(2)));
         let mut few = extra("few", "atleast2"); few.num_vals = Some((2, None)); few.action = Some("append");
         let mut num = extra("num", "number"); num.vp = Some(VpS::I64(Some(-5), Some(10)));
-        let mut pv = extra("pv", "mode"); pv.vp = Some(VpS::Possible(vec![("fast".into(), vec!["f".into()]), ("slow".into(), vec![])]));
-        for a in [req, cx, cy, two, few, num, pv] { cv.cmd.args.insert(0, a); }
-        // indices into cmd.args shifted by 7
-        cv.opts = cv.opts.iter().map(|i| i + 7).collect(); cv.flags = cv.flags.iter().map(|i| i + 7).collect(); cv.pos = cv.pos.iter().map(|i| i + 7).collect();
+        // possible values with upper-case letters: a suggestion must name one of them exactly
+        let pv_names: Vec<(String, Vec<String>)> = if rng.chance(1, 2) { vec![("fast".into(), vec!["f".into()]), ("slow".into(), vec![])] } else { vec![("Fast".into(), vec!["f".into()]), ("SLOW".into(), vec![]), ("Medium-Rare".into(), vec![])] };
+        let mut pv = extra("pv", "mode"); pv.vp = Some(VpS::Possible(pv_names.clone()));
+        // an option that is required unless a GROUP is present (the group holds `cx`)
+        let mut runl = extra("runl", "needs-unless"); runl.r_unless = vec!["ugrp".into()];
+        cv.cmd.groups.push(GroupS { id: "ugrp".into(), args: vec!["cx".into()], multiple: true, ..Default::default() });
+        for a in [req, cx, cy, two, few, num, pv, runl] { cv.cmd.args.insert(0, a); }
+        // indices into cmd.args shifted by 8
+        cv.opts = cv.opts.iter().map(|i| i + 8).collect(); cv.flags = cv.flags.iter().map(|i| i + 8).collect(); cv.pos = cv.pos.iter().map(|i| i + 8).collect();
         if !real_valid(&cv.cmd) { rep.count("invalid_definition(skipped)"); continue; }
         let longs: Vec<String> = cv.cmd.args.iter().flat_map(|a| a.long.iter().cloned().chain(a.aliases.iter().cloned())).chain(["help".to_string()]).chain(if cv.cmd.settings.has_version { vec!["version".to_string()] } else { vec![] }).collect();
         for _ in 0..6 {
             let inv = gen_invocation(&mut rng, &cv, false);
             let mut base = render(&mut rng, &cv, &inv, false);
             base.insert(1, b"--required-opt=r".to_vec());
-            if rng.chance(1, 3) { base.insert(1, b"--with-x".to_vec()); }
+            if rng.chance(1, 2) { base.insert(1, b"--with-x".to_vec()); } else { base.insert(1, b"--needs-unless=u".to_vec()); }
             if rng.chance(1, 3) { base.insert(1, b"--number=7".to_vec()); }
-            if rng.chance(1, 3) { base.insert(1, b"--mode=f".to_vec()); }
+            let first_pv = pv_names[0].0.clone();
+            let has_mode = rng.chance(1, 3);
+            if has_mode { base.insert(1, format!("--mode={}", if rng.chance(1, 2) { "f".to_string() } else { first_pv.clone() }).into_bytes()); }
             if rng.chance(1, 3) { base.insert(1, b"7".to_vec()); base.insert(1, b"6".to_vec()); base.insert(1, b"--pair".to_vec()); }
             // (line, expected kinds (None = must be accepted), fault name)
             let mut lines: Vec<(Vec<Vec<u8>>, Option<Vec<ErrorKind>>, &str)> = vec![(base.clone(), None, "fault-free")];
@@ -45,7 +52,10 @@ pub fn run(o: &Opts) -> Report {
             lines.push((with(&base, &["--atleast2", "1", "--with-y"]).into_iter().filter(|t| t != b"--with-x").collect(), Some(vec![ErrorKind::TooFewValues]), "too-few-values"));
             lines.push((with(&base, &["--requirde-opt=z"]), Some(vec![ErrorKind::UnknownArgument]), "misspelt-flag"));
             lines.push((with(&base, &["--number=11"]).into_iter().filter(|t| t != b"--number=7").collect(), Some(vec![ErrorKind::ValueValidation]), "out-of-range"));
-            lines.push((with(&base, &["--mode=medium"]).into_iter().filter(|t| t != b"--mode=f").collect(), Some(vec![ErrorKind::InvalidValue]), "not-a-possible-value"));
+            let near = [format!("--mode={}", &first_pv[..first_pv.len() - 1]), "--mode=medium".to_string(), "--mode=slo".to_string(), "--mode=SLO".to_string(), "--mode=Medium-Rar".to_string()];
+            lines.push((with(&base, &[rng.pick(&near[..]).as_str()]).into_iter().filter(|t| !(t.starts_with(b"--mode=") && has_mode && (t == &format!("--mode={first_pv}").into_bytes() || t == b"--mode=f"))).collect(), Some(vec![ErrorKind::InvalidValue]), "not-a-possible-value"));
+            // neither the group member nor the option itself: the `required_unless_present(<group>)` option is missing
+            if base.iter().any(|t| t == b"--needs-unless=u") { lines.push((base.iter().filter(|t| *t != b"--needs-unless=u").cloned().collect(), Some(vec![ErrorKind::MissingRequiredArgument]), "drop-required-unless-group")); }
             lines.push((with(&base, &["--help"]), Some(vec![ErrorKind::DisplayHelp]), "help"));
             lines.push((with(&base, &["--version"]), Some(vec![if cv.cmd.settings.has_version { ErrorKind::DisplayVersion } else { ErrorKind::UnknownArgument }]), "version"));
             lines.push((with(&base, &["--required-opt"]).into_iter().filter(|t| !t.starts_with(b"--required-opt=")).collect(), Some(vec![ErrorKind::InvalidValue, ErrorKind::MissingRequiredArgument, ErrorKind::UnknownArgument, ErrorKind::WrongNumberOfValues, ErrorKind::TooFewValues, ErrorKind::ValueValidation, ErrorKind::ArgumentConflict, ErrorKind::InvalidUtf8]), "value-dropped"));
@@ -70,6 +80,14 @@ pub fn run(o: &Opts) -> Report {
                     for (ck, cvl) in e.context() {
                         match (ck, cvl) {
                             (ContextKind::SuggestedArg, ContextValue::String(s)) => { if !longs.iter().any(|l| format!("--{l}") == *s) { rep.oracle_fail("suggestion-names-a-flag-that-does-not-exist", &req, &format!("{s} (longs {longs:?})")); } }
+                            (ContextKind::SuggestedValue, ContextValue::String(s)) => {
+                                // the value that was refused belongs to `--mode` in these lines
+                                if !pv_names.iter().any(|(n, al)| n == s || al.contains(s)) { rep.oracle_fail("suggestion-names-a-value-that-does-not-exist", &req, &format!("{s:?} (possible values {pv_names:?})")); }
+                                rep.count("suggested_values");
+                            }
+                            (ContextKind::ValidValue, ContextValue::Strings(v)) => {
+                                if e.kind() == ErrorKind::InvalidValue && !v.is_empty() && !v.iter().all(|x| pv_names.iter().any(|(n, _)| n == x)) { rep.oracle_fail("valid-values-lists-something-else", &req, &format!("{v:?} vs {pv_names:?}")); }
+                            }
                             _ => {}
                         }
                     }
